@@ -34,6 +34,12 @@ theorem eval_step (sw : SWorld) (op : Op) :
     congr 1
     simp only [SWorld.eval, Array.size_map]
     split <;> rfl
+  | mknew n es =>
+    simp only [World.step, SWorld.step, eval_obj]
+    congr 1
+    have hk : sw.obj.eval.kind = sw.obj.k := build_kind _ _ _
+    rw [hk]
+    simp only [SWorld.eval, Array.map_push, SObj.eval]
 
 /-- **Refinement.**  Running a history on the Model's objects is running it on (kind, n, edge list) triples:
 the objects at the end are the graphs built from the lists, and every step returned what the Spec world says. -/
@@ -96,6 +102,7 @@ theorem run_single (k : Kind) (n : Nat) (ops : List Op) (hs : ∀ op ∈ ops, op
         simp [edgesOf]
     | mkrev => simp [Op.single] at hop
     | use i => simp [Op.single] at hop
+    | mknew n es => simp [Op.single] at hop
 
 /-! ## running parts of a history -/
 
